@@ -56,6 +56,10 @@ import (
 	"go.step.sm/crypto/sshutil"
 	"golang.org/x/crypto/ssh"
 
+	"github.com/go-chi/chi/v5"
+	"github.com/google/uuid"
+	"go.step.sm/crypto/x509util"
+
 	"github.com/smallstep/certificates/api"
 	"github.com/smallstep/certificates/authority"
 	"github.com/smallstep/certificates/authority/config"
@@ -80,6 +84,12 @@ type Case struct {
 	TVA, TVB, RVA, RVB int
 	ReqUD              string // request templateData (must be ignored without a template)
 	AddUser            bool   // the request carries an addUserPublicKey
+	Via                string // "" = authority methods in-process, "api" = the real router and handlers (/1.0/ssh/…)
+	// identity certificate (API mode): identityCSR with this common name and these names
+	IDC      bool
+	IDCN     string
+	IDNames  []string // classified like token names (dns / ip / e-mail go to the CSR fields, URIs to the URI field)
+	IDBadSig bool
 	Sub  string
 	// sign
 	NoSSH  bool // token without step.ssh
@@ -165,6 +175,41 @@ type env struct {
 	awsKey   *rsa.PrivateKey // signs the instance identity documents; its certificate is the provisioners' IIDRoots
 	awsRoots string          // file with that certificate
 	awsSeq   int
+	router   http.Handler // the real api routes (under / and /1.0)
+}
+
+// post sends a JSON body through the real router the way ca.CA serves it (authority in the context)
+func (e *env) post(ca *fixture.CA, path string, body any) *httptest.ResponseRecorder {
+	b, _ := json.Marshal(body)
+	req := httptest.NewRequest("POST", path, bytes.NewReader(b))
+	req = req.WithContext(authority.NewContext(req.Context(), ca.Auth))
+	rec := httptest.NewRecorder()
+	func() {
+		defer func() {
+			if r := recover(); r != nil {
+				rec.Code = 599 // the handler aborted
+			}
+		}()
+		e.router.ServeHTTP(rec, req)
+	}()
+	return rec
+}
+
+// roundTrip: ca.json form -> admin-database (linkedca) form -> back, as the authority does for
+// provisioners kept in the admin database; fields that are not part of the linkedca form are restored
+func roundTrip(p provisioner.Interface) provisioner.Interface {
+	l, err := authority.ProvisionerToLinkedca(p)
+	if err != nil {
+		panic(fmt.Sprintf("ProvisionerToLinkedca(%s): %v", p.GetName(), err))
+	}
+	q, err := authority.ProvisionerToCertificates(l)
+	if err != nil {
+		panic(fmt.Sprintf("ProvisionerToCertificates(%s): %v", p.GetName(), err))
+	}
+	if a, ok := p.(*provisioner.AWS); ok {
+		q.(*provisioner.AWS).IIDRoots = a.IIDRoots
+	}
+	return q
 }
 
 // awsProv builds an AWS provisioner the way the authority does for one stored in the admin database:
@@ -293,6 +338,26 @@ func newEnv() (*env, error) {
 			l = append(l,
 				&provisioner.SSHPOP{Type: "SSHPOP", Name: "sshpop", Claims: &provisioner.Claims{EnableSSHCA: &tr}},
 				&provisioner.SSHPOP{Type: "SSHPOP", Name: "sshpop-noren", Claims: &provisioner.Claims{EnableSSHCA: &tr, DisableRenewal: &tr}})
+		}
+		return l
+	}
+	apiMux := chi.NewRouter()
+	api.Route(apiMux)
+	apiMux.Route("/1.0", func(rt chi.Router) { api.Route(rt) })
+	e.router = apiMux
+	plain := mkProvs
+	mkProvs = func(name string, pop bool) provisioner.List {
+		l := plain(name, pop)
+		// every second authority gets its provisioners through the admin-database form
+		if name == "bothnodb" || name == "host" || name == "fed" {
+			for i := range l {
+				if o, isOIDC := l[i].(*provisioner.OIDC); isOIDC {
+					l[i] = roundTrip(o)
+					e.oidcProv[name] = l[i].(*provisioner.OIDC)
+					continue
+				}
+				l[i] = roundTrip(l[i])
+			}
 		}
 		return l
 	}
@@ -529,9 +594,70 @@ func (e *env) runSign(k *Case) (line, impl string, ok bool) {
 	if k.NoSSH || k.Prov == "oidc" || k.Prov == "k8ssa" || k.Prov == "aws" || k.Prov == "awsdcs" {
 		tva, tvb = 0, 0
 	}
-	line = fmt.Sprintf("op=sign prov=%s cau=%s cah=%s dbe=%s epc=1 sub=%s ssh=%s tct=%s tkid=%s tpr=%s oem=%s ousr=%s nbn=%s nbi=%s tpip=%s tva=%s tvb=%s rva=%s rvb=%s rct=%s rkid=%s rpr=%s au=%s scfg=%s key=%s case=x%s",
+	apiField := ""
+	var idCSR *x509.CertificateRequest
+	if k.Via == "api" {
+		apiField = " via=api"
+		if k.IDC && (k.Prov == "jwk" || k.Prov == "x5c") {
+			// identity CSR: names go to the CSR field of their SplitSANs class
+			dns, ips, emails, uris := x509util.SplitSANs(k.IDNames)
+			idKey := must(ecdsa.GenerateKey(elliptic.P256(), rand.Reader))
+			der, cerr := x509.CreateCertificateRequest(rand.Reader, &x509.CertificateRequest{Subject: pkix.Name{CommonName: k.IDCN},
+				DNSNames: dns, IPAddresses: ips, EmailAddresses: emails, URIs: uris}, idKey)
+			if cerr != nil {
+				return "", "", false
+			}
+			if k.IDBadSig {
+				der[len(der)-3] ^= 0x55
+			}
+			if idCSR, cerr = x509.ParseCertificateRequest(der); cerr != nil {
+				return "", "", false
+			}
+			var cips, curis []string
+			for _, ip := range idCSR.IPAddresses {
+				cips = append(cips, ip.String())
+			}
+			uuid := "-"
+			for _, u := range idCSR.URIs {
+				curis = append(curis, u.String())
+			}
+			// getIdentityURI: first urn:uuid:<uuid> URI (computed like the handler: length, prefix, uuid.Parse)
+			for _, u := range idCSR.URIs {
+				if su := u.String(); isUUIDURN(su) {
+					uuid = c.X(su)
+					break
+				}
+			}
+			san := func(x string) string {
+				d, i, em, ur := x509util.SplitSANs([]string{x})
+				switch {
+				case len(d) == 1:
+					return "d:" + c.X(x) + ":" + c.X(d[0])
+				case len(i) == 1:
+					return "i:" + c.X(x) + ":" + c.X(i[0].String())
+				case len(em) == 1:
+					return "e:" + c.X(x) + ":" + c.X(em[0])
+				default:
+					return "u:" + c.X(x) + ":" + c.X(ur[0].String())
+				}
+			}
+			genType, cred := provisioner.TypeJWK, ca.JWK.KeyID
+			if k.Prov == "x5c" {
+				genType, cred = provisioner.TypeX5C, ""
+			}
+			gen := must((&provisioner.Extension{Type: genType, Name: k.Prov, CredentialID: cred}).ToExtension())
+			encNames := []string{subLine}
+			if uuid != "-" {
+				encNames = append(encNames, must(c.UnX(uuid)))
+			}
+			apiField += fmt.Sprintf(" idc=1 isub=%s isig=%s icn=%s idns=%s iip=%s iem=%s iuri=%s iuuid=%s ienc=%s igen=%s",
+				san(subLine), c.B(idCSR.CheckSignature() == nil), c.X(idCSR.Subject.CommonName), xlist(idCSR.DNSNames), xlist(cips),
+				xlist(idCSR.EmailAddresses), xlist(curis), uuid, c.B(encodable(subLine, encNames)), c.XB(gen.Value))
+		}
+	}
+	line = fmt.Sprintf("op=sign prov=%s cau=%s cah=%s dbe=%s epc=1 sub=%s ssh=%s tct=%s tkid=%s tpr=%s oem=%s ousr=%s nbn=%s nbi=%s tpip=%s tva=%s tvb=%s rva=%s rvb=%s rct=%s rkid=%s rpr=%s au=%s scfg=%s key=%s%s case=x%s",
 		mprov, cau, cah, c.B(ca.DB != nil), c.X(subLine), c.B(!k.NoSSH && k.Prov != "oidc" && k.Prov != "k8ssa" && k.Prov != "aws" && k.Prov != "awsdcs"), c.X(k.Tok.CertType), c.X(k.Tok.KeyID), xlist(k.Tok.Principals),
-		oem, ousr, nbn, nbi, tpip, valField(tva), valField(tvb), valField(k.RVA), valField(k.RVB), c.X(k.Req.CertType), c.X(k.Req.KeyID), xlist(k.Req.Principals), c.B(k.AddUser), c.B(k.CA != "nosshcfg"), keyClass,
+		oem, ousr, nbn, nbi, tpip, valField(tva), valField(tvb), valField(k.RVA), valField(k.RVB), c.X(k.Req.CertType), c.X(k.Req.KeyID), xlist(k.Req.Principals), c.B(k.AddUser), c.B(k.CA != "nosshcfg"), keyClass, apiField,
 		hex.EncodeToString(must(json.Marshal(k))))
 	impl = func() (out string) {
 		defer func() {
@@ -539,6 +665,9 @@ func (e *env) runSign(k *Case) (line, impl string, ok bool) {
 				out = "crash"
 			}
 		}()
+		if k.Via == "api" {
+			return e.apiSign(k, ca, tok, pub, idCSR)
+		}
 		ctx := provisioner.NewContextWithMethod(authority.NewContext(context.Background(), ca.Auth), provisioner.SSHSignMethod)
 		ctx = provisioner.NewContextWithToken(ctx, tok)
 		so := provisioner.SignSSHOptions{CertType: k.Req.CertType, KeyID: k.Req.KeyID, Principals: k.Req.Principals}
@@ -584,6 +713,104 @@ func (e *env) runSign(k *Case) (line, impl string, ok bool) {
 		return fmt.Sprintf("issue %s va=%s vb=%s by=%s%s", certOut(crt), valOut(crt.ValidAfter), valOut(crt.ValidBefore), e.signedBy(crt), au)
 	}()
 	return line, impl, true
+}
+
+func isUUIDURN(s string) bool {
+	if len(s) != 9+36 || !strings.EqualFold(s[:9], "urn:uuid:") {
+		return false
+	}
+	_, err := uuid.Parse(s)
+	return err == nil
+}
+
+var encKey = must(ecdsa.GenerateKey(elliptic.P256(), rand.Reader))
+
+// encodable: crypto/x509 creates and re-parses a certificate with these names
+func encodable(cn string, names []string) bool {
+	dns, ips, emails, uris := x509util.SplitSANs(names)
+	tpl := &x509.Certificate{SerialNumber: big.NewInt(1), Subject: pkix.Name{CommonName: cn}, NotBefore: time.Now(), NotAfter: time.Now().Add(time.Hour),
+		DNSNames: dns, IPAddresses: ips, EmailAddresses: emails, URIs: uris}
+	der, err := x509.CreateCertificate(rand.Reader, tpl, tpl, encKey.Public(), encKey)
+	if err != nil {
+		return false
+	}
+	_, err = x509.ParseCertificate(der)
+	return err == nil
+}
+
+// apiSign: POST /1.0/ssh/sign through the real router; the answer's certificates are decoded from the body
+func (e *env) apiSign(k *Case, ca *fixture.CA, tok string, pub ssh.PublicKey, idCSR *x509.CertificateRequest) string {
+	body := map[string]any{"publicKey": pub.Marshal(), "ott": tok, "certType": k.Req.CertType, "keyID": k.Req.KeyID, "principals": k.Req.Principals}
+	if k.RVA != 0 {
+		body["validAfter"] = valInstant(k.RVA).UTC().Format(time.RFC3339)
+	}
+	if k.RVB != 0 {
+		body["validBefore"] = valInstant(k.RVB).UTC().Format(time.RFC3339)
+	}
+	if k.ReqUD != "" && json.Valid([]byte(k.ReqUD)) {
+		body["templateData"] = json.RawMessage(k.ReqUD)
+	}
+	addPub := must(ssh.NewPublicKey(e.keys["ec"].Public()))
+	if k.AddUser {
+		body["addUserPublicKey"] = addPub.Marshal()
+	}
+	if idCSR != nil {
+		body["identityCSR"] = string(pem.EncodeToMemory(&pem.Block{Type: "CERTIFICATE REQUEST", Bytes: idCSR.Raw}))
+	}
+	path := "/1.0/ssh/sign"
+	if len(k.Req.KeyID)%2 == 1 {
+		path = "/ssh/sign"
+	}
+	rec := e.post(ca, path, body)
+	if rec.Code == 599 {
+		return "crash"
+	}
+	if rec.Code != 201 {
+		return "http:refused"
+	}
+	var resp api.SSHSignResponse
+	if err := json.Unmarshal(rec.Body.Bytes(), &resp); err != nil || resp.Certificate.Certificate == nil {
+		return "http:201-unparsable"
+	}
+	crt := resp.Certificate.Certificate
+	if string(crt.Key.Marshal()) != string(pub.Marshal()) {
+		return "issue wrong-subject-key"
+	}
+	out := fmt.Sprintf("issue %s va=%s vb=%s by=%s", certOut(crt), valOut(crt.ValidAfter), valOut(crt.ValidBefore), e.signedBy(crt))
+	if k.AddUser {
+		switch ac := resp.AddUserCertificate; {
+		case ac == nil || ac.Certificate == nil:
+			out += " au=none"
+		case ac.CertType != ssh.UserCert || e.signedBy(ac.Certificate) != "user" || string(ac.Key.Marshal()) != string(addPub.Marshal()) ||
+			ac.ValidAfter != crt.ValidAfter || ac.ValidBefore != crt.ValidBefore || len(ac.Extensions) != 0 || len(ac.CriticalOptions) != 1:
+			out += " au=malformed"
+		default:
+			out += fmt.Sprintf(" au=kid=%s,pr=%s,fc=%s", c.X(ac.KeyId), xlist(ac.ValidPrincipals), c.X(ac.CriticalOptions["force-command"]))
+		}
+	}
+	if idCSR != nil {
+		if len(resp.IdentityCertificate) == 0 || resp.IdentityCertificate[0].Certificate == nil {
+			return out + " id=missing"
+		}
+		ic := resp.IdentityCertificate[0].Certificate
+		var ips, uris []string
+		for _, ip := range ic.IPAddresses {
+			ips = append(ips, ip.String())
+		}
+		for _, u := range ic.URIs {
+			uris = append(uris, u.String())
+		}
+		key := 2
+		if pk, ok := ic.PublicKey.(interface{ Equal(crypto.PublicKey) bool }); ok && pk.Equal(idCSR.PublicKey) {
+			key = 1
+		}
+		// the identity certificate's validity is the SSH certificate's
+		if uint64(ic.NotBefore.Unix()) != crt.ValidAfter || uint64(ic.NotAfter.Unix()) != crt.ValidBefore {
+			return out + " id=validity-differs"
+		}
+		out += fmt.Sprintf(" id=cn=%s,dns=%s,ip=%s,em=%s,uri=%s,key=%d", c.X(ic.Subject.CommonName), xlist(ic.DNSNames), xlist(ips), xlist(ic.EmailAddresses), xlist(uris), key)
+	}
+	return out
 }
 
 // ---------- SSH-POP ----------
@@ -762,6 +989,33 @@ func (e *env) runPop(k *Case) (line, impl string, ok bool) {
 				out = "crash"
 			}
 		}()
+		if k.Via == "api" && k.Op != "revoke" {
+			// POST /1.0/ssh/renew | rekey through the real router
+			body := map[string]any{"ott": tok}
+			if k.Op == "rekey" {
+				body["publicKey"] = newPub.Marshal()
+			}
+			rec := e.post(ca, "/1.0/ssh/"+k.Op, body)
+			if rec.Code == 599 {
+				return "crash"
+			}
+			if rec.Code != 201 {
+				return "refuse"
+			}
+			var resp api.SSHSignResponse
+			if err := json.Unmarshal(rec.Body.Bytes(), &resp); err != nil || resp.Certificate.Certificate == nil {
+				return "issue unparsable"
+			}
+			pc := resp.Certificate.Certificate
+			wantKey := subjPub
+			if k.Op == "rekey" {
+				wantKey = newPub
+			}
+			if string(pc.Key.Marshal()) != string(wantKey.Marshal()) {
+				return "issue wrong-subject-key"
+			}
+			return fmt.Sprintf("issue %s co=%s ex=%s by=%s", certOut(pc), kvList(pc.CriticalOptions), kvList(pc.Extensions), e.signedBy(pc))
+		}
 		method := map[string]provisioner.Method{"renew": provisioner.SSHRenewMethod, "rekey": provisioner.SSHRekeyMethod, "revoke": provisioner.SSHRevokeMethod}[k.Op]
 		ctx := provisioner.NewContextWithMethod(authority.NewContext(context.Background(), ca.Auth), method)
 		ctx = provisioner.NewContextWithToken(ctx, tok)
